@@ -1,6 +1,6 @@
 (* Alg_SE3.v — AlgLaws (AlgSpec.v, property C07) for the SE3 model at the real instance; one lemma per field. *)
 From Coq Require Import Reals ZArith List Lra Lia.
-From Manif Require Import Scalar Mat Consts Group RInst Tac SO2 SE2 SO3 SE3 SE23 SGal3 Rn Generic AlgSpec RnProofs AlgTac.
+From Manif Require Import Scalar Mat Consts Group RInst Tac SO2 SE2 SO3 SE3 SE23 SGal3 Rn Generic LieSpec AlgSpec RnProofs AlgTac.
 Import ListNotations.
 Local Open Scope R_scope.
 Ltac Zify.zify_post_hook ::= Z.div_mod_to_equations.
